@@ -233,7 +233,8 @@ def _draw_sdmx_params(rng):
         "mol": rng.choice(TINY_MOLS),
         # (generally contracted sets: several radial functions per shell)
         "basis": rng.choice(["sto-3g", "6-31g", "def2-svp", "ano@3s2p", "ano@2s2p", "cc-pvdz"]),
-        "ngrids": _size(rng, [1, 3, 16, 57, 112, 200], 520),
+        # (56 and 128 are block lengths of the SDMX loops: exact multiples have no remainder block)
+        "ngrids": _size(rng, [1, 3, 16, 56, 57, 112, 128, 200, 256, 384, 512, 896], 520),
         "nspin": rng.choice([1, 2]),
         "nset": rng.choice([1, 2]),
         "dseed": rng.below(10**6),
